@@ -35,12 +35,15 @@ def run(ctx):
     def cond_const(f, lv_names):
         """[(cond string, on value, off value, node)] for assignments lv = c ? a : b"""
         out = []
+        cands = []
         for lv, n, r in assigned_lvalues(f):
-            if lv in lv_names and r is not None:
+            if r is not None and lv.isidentifier():
                 ru = f.unwrap(r)
                 if ru['k'] == 'ConditionalOperator':
                     c, a, b = ru['kids']
-                    out.append((f.s(c), fval(f, a), fval(f, b), n, f.s(a), f.s(b)))
+                    cands.append((lv, (f.s(c), fval(f, a), fval(f, b), n, f.s(a), f.s(b))))
+        # the scale local is recognised by what it is - a local set from `cond ? constant : constant` - not by its name
+        out = [t for lv, t in cands if lv in lv_names] or [t for lv, t in cands if t[1] is not None and t[2] is not None]
         return out
 
     # ---- writers: x2Y[_clip]_array in pcm.c and psf_x2Y[_clip]_array in common.c
@@ -57,12 +60,12 @@ def run(ctx):
             continue
         cs, on, off, node, _, _ = cc[0]
         want_on = float(2 ** (w - 1)) if clip else float(2 ** (w - 1) - 1)
-        ctx.ob('SCALE', f.name + ':normfact', on == want_on and off == 1.0 and cs == 'normalize', f.loc(node),
+        ctx.ob('SCALE', f.name + ':normfact', on == want_on and off == 1.0 and cs == (f.params[-1]['n'] if f.params else 'normalize'), f.loc(node),
                '%d-bit %s writer: normalised x %s (formula %s), un-normalised x %s, selected by `%s`' % (w, 'clipping' if clip else 'plain', on, want_on, off, cs), None)
         if clip:
             th = {}
             for n in f.walk():
-                if n['k'] == 'IfStmt' and 'scaled_value' in f.s(n['cond']):
+                if n['k'] == 'IfStmt' and f.unwrap(f.N[n['cond']]).get('k') == 'BinaryOperator' and f.unwrap(f.N[n['cond']]).get('op') in ('>=', '<=') and f.unwrap(f.N[f.unwrap(f.N[n['cond']])['kids'][0]]).get('k') == 'DeclRefExpr' and fval(f, f.unwrap(f.N[n['cond']])['kids'][1]) is not None:
                     cn = f.N[n['cond']]
                     op = cn.get('op')
                     tv = fval(f, cn['kids'][1])
